@@ -335,7 +335,7 @@ class Interp:
 
     def ev_Dict(self, st, fr, e):
         if not e.keys:
-            return [(st, KwV({}))]
+            return self.theory.empty_dict(st, fr, getattr(fr, "hint", None))
         keys = []
         for k in e.keys:
             if not (isinstance(k, ast.Constant) and isinstance(k.value, str)):
@@ -957,6 +957,7 @@ class Interp:
     def st_AnnAssign(self, st, fr, n):
         if n.value is None:
             return [(st, NORMAL)]
+        fr.hint = n.target.id if isinstance(n.target, ast.Name) else None
         return self._exits(self.ev(st, fr, n.value), lambda s, v: self.assign(s, fr, n.target, v))
 
     def st_Assign(self, st, fr, n):
@@ -1014,6 +1015,9 @@ class Interp:
         if isinstance(target, ast.Subscript):
             def cont2(s, vs):
                 return self.setitem(s, fr, vs[0], vs[1], v)
+
+            if isinstance(target.value, ast.Name) and target.value.id in st.loc and self.is_mutable(st.loc[target.value.id]):
+                return self._exits(self.ev(st, fr, target.slice), lambda s, k: self.setitem(s, fr, PlaceV(("loc", target.value.id)), k, v))
 
             return self._exits(self.ev_seq(st, fr, [target.value, target.slice]), cont2)
         raise Unsupported("assignment target")
